@@ -1,17 +1,15 @@
 from specs.common import run, ASSUME_COMMON
 
-# case layout of harness/c16_b3_jaeger.cc: the first enum_bases*72 cases are the completely
-# enumerated block (12 kinds of base: six `b3` forms, five `uber-trace-id` forms, one X-B3-* set;
-# one case = one byte position x all 256 values, plus per base all one-byte appends/prepends, all
-# truncations/deletions/duplications, and a sweep of all 256 flag bytes x 3 propagators); every
-# later case is three seeded round trips (one per propagator) plus `variants_per_case` extract inputs.
-_QUICK_BASES = 12
-_THOROUGH_BASES = 96
-
+# case layout of harness/c16_b3_jaeger.cc (the same in both tiers, so a case replays under any tier):
+# every 25th case is the next slot of the completely enumerated block - enumerated case e = i/25
+# works on base e/72 (12 kinds in rotation: six `b3` forms, five `uber-trace-id` forms, one X-B3-*
+# set), slot e%72: one byte position x all 256 values (slots 0..67), all one-byte appends (68) /
+# prepends (69), all truncations/deletions/duplications (70), all 256 flag bytes x 3 propagators
+# (71); every other case is three seeded round trips (one per propagator) plus 6 generated
+# carriers.  21 600 quick cases = 12 complete bases + 20 736 random cases; 4 000 000 thorough
+# cases = 2 222 bases.
 SPEC = {
-    "runs": [run("e1-recogniser", "c16_b3_jaeger", "asan", _QUICK_BASES * 72 + 20000, _THOROUGH_BASES * 72 + 3000000,
-                 need_lib=False,
-                 tier_params={"quick": {"enum_bases": _QUICK_BASES}, "thorough": {"enum_bases": _THOROUGH_BASES, "variants_per_case": 12}})],
+    "runs": [run("e1-recogniser", "c16_b3_jaeger", "asan", 21600, 4000000, need_lib=False)],
     "floors": {
         "quick": {"enum_b3_single_byte_mutants_51": 13056, "enum_jaeger_single_byte_mutants_54": 13824,
                   "enum_multi_id_single_byte_mutants": 4096, "enum_multi_sampled_values": 89,
@@ -20,10 +18,11 @@ SPEC = {
                   "roundtrips_flags_other_bits": 12000, "inject_wire_judged": 15000,
                   "extract_must_accept": 10000, "extract_undocumented_form": 30000,
                   "extract_b3_precedence_cases": 1800, "extracts_random_bytes": 3500},
-        "thorough": {"enum_b3_single_byte_mutants_51": 13056 * 8, "enum_jaeger_single_byte_mutants_54": 13824 * 8,
-                     "enum_flag_bytes_x_propagators": 768 * 24, "roundtrips": 3000000,
-                     "extract_must_accept": 1500000, "extract_b3_precedence_cases": 300000,
-                     "extracts_random_bytes": 600000},
+        "thorough": {"enum_b3_single_byte_mutants_51": 13056 * 150, "enum_jaeger_single_byte_mutants_54": 13824 * 150,
+                     "enum_multi_id_single_byte_mutants": 12288 * 50, "enum_flag_bytes_x_propagators": 768 * 600,
+                     "roundtrips": 4000000, "roundtrips_flags_other_bits": 2500000, "inject_wire_judged": 4000000,
+                     "extract_must_accept": 2500000, "extract_undocumented_form": 10000000,
+                     "extract_b3_precedence_cases": 400000, "extracts_random_bytes": 800000},
     },
     "engine": "E1 model-oracle",
     "technique": ("round-trip equalities and an independent recogniser of the documented B3 / Jaeger header forms as oracle for the "
@@ -41,20 +40,21 @@ SPEC = {
                    "Right level because the property quantifies over span contexts and byte strings of pure sequential functions."),
     "level_note": ("trusts the recognisers of the documented forms in harness/c16_b3_jaeger.cc and gcc ASan/UBSan; exhaustive only "
                    "for the named single-byte sub-spaces of the generated base headers, everything else is sampled"),
-    "rule": ("cases 0..enum_bases*72-1: base b=i/72 of kind b%12 (b3: s=1, s=d, one-digit ids s=0, 16-hex trace id, with parent, "
-             "two fields; uber-trace-id: flags 01, one-digit ids flags 00, random flags, 16-hex trace id with one-digit flags, "
-             "16-hex parent; X-B3-TraceId+SpanId), slot i%72: 0..67 substitute all 256 byte values at that position (X-B3-* set: "
-             "slot 48 = every one-byte X-B3-Sampled value, absent, empty and 10 legacy spellings), 68/69 append/prepend each of "
-             "256 bytes, 70 every prefix, suffix, one-byte deletion and duplication, 71 inject+extract of all 256 flag bytes with "
-             "each of the 3 propagators. Later cases: 3 round trips (structured or random ids, weighted flags, 5 kinds of caller "
-             "context) then 6 generated carriers (4 B3, 2 Jaeger). A case is non-trivial if it ran at least one Extract; "
-             "distinct = distinct hash of all carrier contents the case used."),
+    "rule": ("every 25th case (i%25==0, e=i/25) is enumerated: base e/72 of kind (e/72)%12 (b3: s=1, s=d, one-digit ids s=0, "
+             "16-hex trace id, with parent, two fields; uber-trace-id: flags 01, one-digit ids flags 00, random flags, 16-hex "
+             "trace id with one-digit flags, 16-hex parent; X-B3-TraceId+SpanId; ids derived from the run seed), slot e%72: "
+             "0..67 substitute all 256 byte values at that position (X-B3-* set: slot 48 = every one-byte X-B3-Sampled value, "
+             "absent, empty and 10 legacy spellings), 68/69 append/prepend each of 256 bytes, 70 every prefix, suffix, one-byte "
+             "deletion and duplication, 71 inject+extract of all 256 flag bytes with each of the 3 propagators. Every other "
+             "case: 3 round trips (structured or random ids, weighted flags, 5 kinds of caller context) then 6 generated "
+             "carriers (4 B3, 2 Jaeger). The layout does not depend on the tier. A case is non-trivial if it ran at least one "
+             "Extract; distinct = distinct hash of all carrier contents the case used."),
     "coverage_extra": {
         "exhaustive_subspaces": [
             {"name": "single-byte substitutions of a valid 51-byte b3 header (51 positions x 256 values)", "size_per_base": 13056,
-             "counter": "enum_b3_single_byte_mutants_51", "bases": {"quick": 3, "thorough": 24}},
+             "counter": "enum_b3_single_byte_mutants_51", "bases": {"quick": 3, "thorough": 555}},
             {"name": "single-byte substitutions of a valid 54-byte uber-trace-id header (54 positions x 256 values)",
-             "size_per_base": 13824, "counter": "enum_jaeger_single_byte_mutants_54", "bases": {"quick": 3, "thorough": 24}},
+             "size_per_base": 13824, "counter": "enum_jaeger_single_byte_mutants_54", "bases": {"quick": 3, "thorough": 555}},
             {"name": "single-byte substitutions of the other documented b3 / uber-trace-id forms",
              "counter": "enum_b3_single_byte_mutants_other_forms + enum_jaeger_single_byte_mutants_other_forms"},
             {"name": "single-byte substitutions of X-B3-TraceId (32) and X-B3-SpanId (16); all one-byte X-B3-Sampled values",
